@@ -5,6 +5,7 @@ import (
 	"go/token"
 	"go/types"
 	"math/big"
+	"os"
 	"regexp"
 	"sort"
 	"strings"
@@ -147,7 +148,8 @@ func ruleSTypes(p *Prog, r *Report) {
 			},
 			Survive: func(out Outcome, in *Interp) bool {
 				for _, rv := range out.Frame.ReturnVals() {
-					if len(rv) == 1 && !(rv[0].K == KBool && !rv[0].B) {
+					// the ok flag is the last result (alone, or after the message)
+					if k := len(rv) - 1; k >= 0 && !(rv[k].K == KBool && !rv[k].B) {
 						return true
 					}
 				}
@@ -285,8 +287,8 @@ func controlHeaderFree(p *Prog, r *Report, rule string) {
 					}
 					acc, rej := false, false
 					for _, rv := range out.Frame.ReturnVals() {
-						if len(rv) == 1 && rv[0].K == KBool {
-							if rv[0].B {
+						if k := len(rv) - 1; k >= 0 && rv[k].K == KBool {
+							if rv[k].B {
 								acc = true
 							} else {
 								rej = true
@@ -402,6 +404,20 @@ func ruleDecodeWidth(p *Prog, r *Report) {
 		}
 		re := regexp.MustCompile(b.term)
 		var probs []string
+		// an element whose value is no term (the bytes come through a helper the
+		// symbolic run does not follow): decide from the item decoder instead
+		noTerm := false
+		for _, e := range elems {
+			if e.K != KIface || e.Inner == nil {
+				noTerm = true
+			} else if t, ok := termOf(*e.Inner); !ok || t == "" {
+				noTerm = true
+			}
+		}
+		if noTerm {
+			widthFromItemDecoder(p, r, rule, key, b.fn, b.k, b.typ, b.term)
+			continue
+		}
 		for _, e := range elems {
 			if e.K != KIface {
 				probs = append(probs, "an element of unknown type/value is stored ("+e.String()+")")
@@ -720,7 +736,9 @@ func ruleDecodeHeader(p *Prog, r *Report) {
 func ruleFraming(p *Prog, r *Report) {
 	const rule = "R5-framing"
 	// (a) at least 14 bytes
-	if fn := p.MustFunc(r, "hsms", "(*parser).parseMessageLength"); fn != nil && framingByEvaluation(p, r, rule, fn) {
+	if p.Func("hsms", "(*parser).parseMessageLength") == nil && framingThroughParse(p, r, rule) {
+		// the framing is not a function of its own: decided on Parse itself
+	} else if fn := p.MustFunc(r, "hsms", "(*parser).parseMessageLength"); fn != nil && framingByEvaluation(p, r, rule, fn) {
 		// decided by evaluation
 	} else if fn != nil {
 		CheckDomain(p, r, DomainSpec{Rule: rule, Key: rule + ":hsms.parseMessageLength:len(input)", Fn: fn,
@@ -1193,10 +1211,11 @@ func framingByEvaluation(p *Prog, r *Report, rule string, fn *ssa.Function) bool
 			rets := out.Frame.ReturnVals()
 			acc, rej := false, len(rets) == 0
 			for _, rv := range rets {
-				if len(rv) != 1 || rv[0].K != KBool {
+				k := len(rv) - 1 // the ok flag is the last result
+				if k < 0 || rv[k].K != KBool {
 					return false
 				}
-				if rv[0].B {
+				if rv[k].B {
 					acc = true
 				} else {
 					rej = true
@@ -1268,10 +1287,11 @@ func consumedAllByEvaluation(p *Prog, r *Report, rule string, fn *ssa.Function) 
 			rets := out.Frame.ReturnVals()
 			acc, rej := false, len(rets) == 0
 			for _, rv := range rets {
-				if len(rv) != 1 || rv[0].K != KBool {
+				k := len(rv) - 1 // the ok flag is the last result
+				if k < 0 || rv[k].K != KBool {
 					return false
 				}
-				if rv[0].B {
+				if rv[k].B {
 					acc = true
 				} else {
 					rej = true
@@ -1294,6 +1314,110 @@ func consumedAllByEvaluation(p *Prog, r *Report, rule string, fn *ssa.Function) 
 		r.bad(rule, key, p.Pos(fn.Pos()), strings.Join(firstN(bad, 3), "; "))
 	} else {
 		r.ok(rule, key, p.Pos(fn.Pos()), fmt.Sprintf("evaluated on %d concrete data messages: the text of exactly one item is accepted and built; the same text followed by one byte, by another item or by an empty list is refused", n))
+	}
+	return true
+}
+
+// framingThroughParse: the framing obligations decided on hsms.Parse itself,
+// for a decoder whose length check is not a function of its own. Parse is
+// evaluated on whole messages of 0 to 100 bytes — a linktest request for 14
+// bytes, a data message whose text is one binary item filling the rest beyond
+// that (15 bytes cannot be a message and are left out) — each with the declared lengths of
+// framingByEvaluation: accepted exactly when the bytes are a message and the
+// declared length is the bytes present.
+func framingThroughParse(p *Prog, r *Report, rule string) bool {
+	fn := p.Func("hsms", "Parse")
+	if fn == nil || len(fn.Params) != 1 {
+		return false
+	}
+	var badLen, badEq []string
+	n := 0
+	for _, total := range []int64{0, 1, 3, 4, 5, 10, 13, 14, 16, 17, 20, 100} {
+		var body []int64
+		switch {
+		case total <= 14:
+			body = []int64{0xFF, 0xFF, 0, 0, 0, 5, 1, 2, 3, 4}
+		default:
+			body = []int64{0, 1, 0x81, 1, 0, 0, 9, 8, 7, 6}
+			rest := total - 14
+			switch {
+			case rest-2 <= 255:
+				body = append(body, 0x21, rest-2)
+			default:
+				body = append(body, 0x22, (rest-3)>>8, (rest-3)&0xFF)
+			}
+			for int64(len(body)) < total-4 {
+				body = append(body, 0)
+			}
+		}
+		for _, declared := range []int64{total - 4, total - 5, total - 3, 0, 10, total, 1 << 24, (total - 4) + 1<<16} {
+			if declared < 0 || declared > 0xFFFFFFFF {
+				continue
+			}
+			in := NewInterp(p)
+			in.Recursion = 1
+			in.PathBind["p0"] = Val{K: KSlice, S: "p0", Len: int(total)}
+			in.PathBind["len(p0)"] = int64Val(total)
+			for i := int64(0); i < total; i++ {
+				b := int64(0)
+				if i < 4 {
+					b = (declared >> (8 * uint(3-i))) & 0xFF
+				} else if int(i-4) < len(body) {
+					b = body[i-4]
+				}
+				in.PathBind[fmt.Sprintf("p0[%d]", i)] = int64Val(b)
+			}
+			out := in.Run(fn, defaultArgs(fn), nil)
+			if out.Frame == nil || len(in.Stuck) > 0 {
+				if os.Getenv("SC_TRACE_FRAME") != "" {
+					fmt.Fprintf(os.Stderr, "framingThroughParse total=%d declared=%d: stuck %v\n", total, declared, in.Stuck)
+				}
+				return false
+			}
+			rets := out.Frame.ReturnVals()
+			acc, rej := false, len(rets) == 0 || out.CanPanic
+			for _, rv := range rets {
+				k := len(rv) - 1
+				if k < 0 || rv[k].K != KBool {
+					if os.Getenv("SC_TRACE_FRAME") != "" {
+						fmt.Fprintf(os.Stderr, "framingThroughParse total=%d declared=%d: returns %v\n", total, declared, rets)
+					}
+					return false
+				}
+				if rv[k].B {
+					acc = true
+				} else {
+					rej = true
+				}
+			}
+			if acc && rej {
+				if os.Getenv("SC_TRACE_FRAME") != "" {
+					fmt.Fprintf(os.Stderr, "framingThroughParse total=%d declared=%d: both %v panic=%v\n", total, declared, rets, out.CanPanic)
+				}
+				return false
+			}
+			n++
+			want := total >= 14 && declared == total-4
+			if acc != want {
+				msg := fmt.Sprintf("a message of %d bytes declaring a length of %d is %s", total, declared, map[bool]string{true: "accepted", false: "refused"}[acc])
+				if total < 14 {
+					badLen = append(badLen, msg)
+				} else {
+					badEq = append(badEq, msg)
+				}
+			}
+		}
+	}
+	pos := p.Pos(fn.Pos())
+	if len(badLen) > 0 {
+		r.bad(rule, rule+":hsms.parseMessageLength:len(input)", pos, strings.Join(firstN(badLen, 3), "; ")+" (a message has at least 14 bytes)")
+	} else {
+		r.ok(rule, rule+":hsms.parseMessageLength:len(input)", pos, fmt.Sprintf("Parse evaluated on %d whole messages of 0 to 100 bytes: every input shorter than 14 bytes is refused", n))
+	}
+	if len(badEq) > 0 {
+		r.bad(rule, rule+":hsms.parseMessageLength:declared==present", pos, strings.Join(firstN(badEq, 3), "; ")+" (success is 'bytes after the length field == declared length')")
+	} else {
+		r.ok(rule, rule+":hsms.parseMessageLength:declared==present", pos, fmt.Sprintf("Parse evaluated on %d whole messages (a linktest request, data messages of one binary item) whose declared length is the bytes present, one less, one more, 0, 10, the total, 2^24 and 2^16 too many: accepted exactly when the declared length is the bytes present", n))
 	}
 	return true
 }
